@@ -70,3 +70,33 @@ Theorem pad_clip_refines_spec : forall target c axis vs,
   obs (rpadclip_model target axis c) = rpadclip_spec target axis (type_of c) vs.
 Proof. exact rpadclip_refines. Qed.
 Print Assumptions pad_clip_refines_spec.
+
+(* ---- refinement of fill_none: the layout-level model (an option node becomes the union of its content and the
+        one-element value array) computes exactly the value-level specification, values and error status ---- *)
+From AwkV Require Import Proofs_Fillna.
+
+(* on the usual fragment [frag] (every node class except UnionArray; strings and n-d NumpyArray included) *)
+Theorem fillna_refines_spec : forall value c v0 vs,
+  Valid None c -> frag c = true -> to_list c = Ok vs -> to_list value = Ok [v0] ->
+  obs (fillna_model value c) = fillna_spec [v0] (type_of c) vs.
+Proof. exact Proofs_Fillna.fillna_refines_spec. Qed.
+Print Assumptions fillna_refines_spec.
+
+(* on the wider fragment [ffrag] (unions allowed strictly below an option node) and for a value array of any
+   length (a length other than 1 is refused by both sides) *)
+Theorem fillna_refines_spec_wide : forall value c v0s vs,
+  Valid None c -> ffrag c = true -> to_list c = Ok vs -> to_list value = Ok v0s ->
+  obs (fillna_model value c) = fillna_spec v0s (type_of c) vs.
+Proof. exact fillna_refines_spec_gen. Qed.
+Print Assumptions fillna_refines_spec_wide.
+
+Theorem frag_in_fillna_fragment : forall c, frag c = true -> ffrag c = true.
+Proof. exact frag_ffrag. Qed.
+Print Assumptions frag_in_fillna_fragment.
+
+(* fill_none never fails on the fragment *)
+Theorem fillna_never_fails : forall value c v0 vs,
+  Valid None c -> ffrag c = true -> to_list c = Ok vs -> to_list value = Ok [v0] ->
+  exists c' ws, fillna_model value c = Ok c' /\ to_list c' = Ok ws /\ fillna_spec [v0] (type_of c) vs = Ok ws.
+Proof. exact fillna_total. Qed.
+Print Assumptions fillna_never_fails.
